@@ -277,7 +277,38 @@ class BlockAnalysis:
         if s.orelse:
             raise AnalysisError(f'{self.fi.qual}: conditional permutation with an else branch')
         moved = []
-        for st in s.body:
+        for st in list(s.body):
+            # a re-arrangement written in place (out=<operand>, X[...] = X[..]) touches the caller's array: reported,
+            # then followed as if it were the rebinding X = X[..] so that the frames stay meaningful
+            call = st.value if isinstance(st, (ast.Expr, ast.Assign)) and isinstance(st.value, ast.Call) else None
+            outkw = [k for k in (call.keywords if call else []) if k.arg == 'out']
+            if call is not None and outkw and norm(call.func) == 'np.take' and len(call.args) >= 2 and \
+                    isinstance(call.args[0], ast.Name) and norm(outkw[0].value) == call.args[0].id:
+                nm = call.args[0].id
+                ax = [k for k in call.keywords if k.arg == 'axis']
+                axv = ax[0].value.value if ax and isinstance(ax[0].value, ast.Constant) else (
+                    call.args[2].value if len(call.args) > 2 and isinstance(call.args[2], ast.Constant) else None)
+                self.ok('perm', st, False, f'`{norm(st)[:70]}`: the sorted arrangement is written into a new array (the '
+                        f'operand `{nm}` belongs to the caller; out=`{nm}` permutes it in place)')
+                if axv in (0, 1):
+                    sl = ast.Slice(lower=None, upper=None, step=None)
+                    elts = [call.args[1], sl] if axv == 0 else [sl, call.args[1]]
+                    st = ast.Assign(targets=[ast.Name(id=nm, ctx=ast.Store())],
+                                    value=ast.Subscript(value=ast.Name(id=nm, ctx=ast.Load()),
+                                                        slice=ast.Tuple(elts=elts, ctx=ast.Load()), ctx=ast.Load()))
+                    ast.copy_location(st, call)
+                    ast.fix_missing_locations(st)
+            if isinstance(st, ast.Assign) and len(st.targets) == 1 and isinstance(st.targets[0], ast.Subscript) and \
+                    isinstance(st.targets[0].value, ast.Name) and isinstance(st.value, ast.Subscript) and \
+                    norm(st.value.value) == st.targets[0].value.id and \
+                    norm(st.targets[0].slice) in (':', '...', '(slice(None, None, None), slice(None, None, None))', ':, :'):
+                nm = st.targets[0].value.id
+                self.ok('perm', st, False, f'`{norm(st)[:70]}`: the sorted arrangement is written into a new array (the '
+                        f'operand `{nm}` belongs to the caller; a slice store permutes it in place)')
+                st2 = ast.Assign(targets=[ast.Name(id=nm, ctx=ast.Store())], value=st.value)
+                ast.copy_location(st2, st)
+                ast.fix_missing_locations(st2)
+                st = st2
             if not (isinstance(st, ast.Assign) and len(st.targets) == 1 and isinstance(st.targets[0], ast.Name) and
                     isinstance(st.value, ast.Subscript) and norm(st.value.value) == st.targets[0].id):
                 raise AnalysisError(f'{self.fi.qual}: `{norm(st)[:60]}` inside a conditional permutation not recognised')
@@ -396,6 +427,18 @@ class BlockAnalysis:
                 self.ok('block-store', s, isinstance(v, ast.Name) and v.id == self.loopvar,
                         f'`{norm(s)}`: the intermediate charges of the block are the charge of this iteration')
                 self.label_name = name
+                al = getattr(obj, 'alloc', None)
+                if al is not None and not getattr(obj, 'dtype_checked', False):
+                    obj.dtype_checked = True
+                    dt = [k.value for k in al.value.keywords if k.arg == 'dtype']
+                    dtx = norm(dt[0]) if dt else 'float'
+                    qnames = {self.q[0], self.q[1]}
+                    good = dtx in ('int', 'np.int64', 'np.int32', 'np.intp', 'np.int_') or \
+                        (dtx.endswith('.dtype') and dtx[:-6] in qnames) or \
+                        (dtx.startswith(('np.result_type(', 'np.promote_types(')) and any(q + '.dtype' in dtx for q in qnames))
+                    self.ok('dtype', al, good, f'`{norm(al)[:80]}`: the intermediate charges are stored with the integer type '
+                            f'of the charge vectors (dtype {dtx}); a floating-point store rounds large charges and returns '
+                            f'non-integer labels')
             else:
                 self.ok('block-store', s, self.sub.get(norm(v)) == 'sigma', f'`{norm(s)}`: singular values of this block')
             return
